@@ -226,7 +226,7 @@ Arguments ctree : clear implicits.
 (* ------------------------------------------------------------------ operator spellings (base.py:9279-9325, 292-436)
    which named method an operator dunder forwards to, and in which order the two operands reach it.
    [self_first = true]: torch computes  method(self_leaf, other);  false:  method(other, self_leaf). *)
-Inductive method := MAdd | MSub | MMul | MDiv | MPow | MAnd | MOr | MXor | MMulRecip | MNotImpl.
+Inductive method := MAdd | MSub | MMul | MDiv | MPow | MAnd | MOr | MXor | MMulRecip | MNegAdd | MNotImpl.
 Inductive dunder := DuAdd | DuRadd | DuIadd | DuSub | DuRsub | DuIsub | DuMul | DuRmul | DuImul
                   | DuTruediv | DuRtruediv | DuItruediv | DuPow | DuRpow | DuIpow
                   | DuAnd | DuRand | DuOr | DuRor | DuXor | DuRxor.
@@ -238,7 +238,8 @@ Definition dunder_impl (fixed : bool) (d : dunder) : method * bool * bool :=
   match d with
   | DuAdd => (MAdd, false, true) | DuRadd => (MAdd, false, true) | DuIadd => (MAdd, true, true)
   | DuSub => (MSub, false, true) | DuIsub => (MSub, true, true)
-  | DuRsub => (MSub, false, negb fixed)               (* __rsub__ returns self.sub(other): self - other *)
+  | DuRsub => if fixed then (MNegAdd, false, false)   (* D40 patch: self.neg().add(other) = other - self *)
+              else (MSub, false, true)               (* before: self.sub(other) = self - other *)
   | DuMul => (MMul, false, true) | DuRmul => (MMul, false, true) | DuImul => (MMul, true, true)
   | DuTruediv => (MDiv, false, true) | DuItruediv => (MDiv, true, true)
   | DuRtruediv => (MMulRecip, false, false)            (* other * self.reciprocal() *)
@@ -261,5 +262,6 @@ Definition order_ok (fixed : bool) (d : dunder) : bool :=
   match m with
   | MNotImpl => true                                   (* raises: no value is returned *)
   | MMulRecip => true                                  (* other * (1/self) = other / self *)
+  | MNegAdd => true                                    (* (-self) + other = other - self *)
   | _ => commutative m || Bool.eqb self_first (negb (reflected d))
   end.
